@@ -163,6 +163,15 @@ Definition fn_listener_accept := mkFn "listener_accept"
   Nop
   ["l.err.Error"; "strings.Contains"].
 
+(* listener.Close: closes the raw listener, cancels, then drains l.incoming: every
+   upgraded connection it receives is its to release *)
+Definition fn_listener_close := mkFn "listener_close"
+  [("c.Close", (RelConn, RelConn, RelConn))]
+  [] []
+  [("range l.incoming has next", CEffect AcqConn Nop)]
+  Nop
+  ["l.GatedMaListener.Close"; "l.cancel"].
+
 Definition fn_gated_accept := mkFn "gated_accept"
   [("l.Listener.Accept", (AcqRaw, Nop, Impossible));
    ("conn.Close", (RelRaw, RelRaw, RelRaw));
